@@ -4,6 +4,7 @@
 //!   kkt.assemble   `assemble_kkt_matrix` + `_fill_signs`      (model: Kkt.assembleKktMatrix / fillSigns)
 //!   kkt.update     `DirectLDLKKTSolver::{new,update}`          (model: Kkt.updateValues / regularizeAndRestore)
 //!   kkt.get_hs     `Cone::get_Hs` of nn / soc / genpow cones   (model: Kkt.getHs)
+//!   kkt.passes     2-4 calls of `update` on one solver object   (model: Kkt.runPasses / updatePass)
 //!   blk.*          the `colcount_*` / `fill_*` utilities of algebra/csc/utils.rs individually
 //!   kkt.live       a full `DefaultSolver::solve()`; state of the KKT solver afterwards (oracle only)
 #![allow(non_snake_case)]
@@ -892,6 +893,168 @@ fn oracle_update(r: &Req, out: &str) -> Result<(), String> {
     Ok(())
 }
 
+// ------------------------------------------------------------------ kkt.passes
+
+/// scaling tokens of pass `k`: the keys of `scaling_tokens` prefixed with `p{k}` (`nc` is shared)
+fn scaling_tokens_pass(mut l: Line, cones: &CompositeCone<f64>, k: usize) -> Line {
+    let t = Req::parse(&scaling_tokens(Line::new("x"), cones).done()).unwrap();
+    for (key, v) in t.kv.iter() {
+        if key == "nc" {
+            continue;
+        }
+        l = l.s(&format!("p{}{}", k, key), v);
+    }
+    l
+}
+
+struct PassRec {
+    nzval: Vec<f64>,
+    nzfactor: Vec<f64>,
+    eps: f64,
+}
+
+struct PassesLive {
+    kkt: DirectLDLKKTSolver<f64>,
+    recs: Vec<PassRec>,
+}
+
+/// `DirectLDLKKTSolver::new`, then for every pass `k` in `first..np`: `update_scaling(s_k, z_k, mu_k)`
+/// on ONE composite cone object and `kkt.update` on ONE solver object (what the interior-point
+/// loop does).  `first = np - 1` is "a fresh solver given only the last scaling".
+fn passes_live(r: &Req, first: usize) -> Result<PassesLive, String> {
+    let P = r.csc("P");
+    let A = r.csc("A");
+    let np = r.u("np");
+    let mut cones = CompositeCone::<f64>::new(&parse_cones(r.str("cones")));
+    let mut settings = DefaultSettings::<f64>::default();
+    settings.direct_solve_method = "qdldl".to_string();
+    settings.static_regularization_enable = r.b("reg");
+    settings.static_regularization_constant = r.f("regconst");
+    settings.static_regularization_proportional = r.f("regprop");
+    let mut kkt = DirectLDLKKTSolver::<f64>::new(&P, &A, &cones, A.m, A.n, &settings);
+    let strat = strategy(r.str("strategy"));
+    let mut recs = vec![];
+    for k in first..np {
+        let (s, z, mu) = (r.fs(&format!("p{}s", k)), r.fs(&format!("p{}z", k)), r.f(&format!("p{}mu", k)));
+        if !cones.update_scaling(&s, &z, mu, strat) {
+            return Err("scaling-failed".into());
+        }
+        // the scaling data in the request is what this implementation computes (a cone object
+        // that went through the earlier passes included)
+        let again = scaling_tokens_pass(Line::new("x"), &cones, k).done();
+        let mine = Req::parse(&again).unwrap();
+        for (key, v) in mine.kv.iter() {
+            if r.kv.get(key) != Some(v) {
+                return Err(format!("scaling-data-in-request-differs key={}", key));
+            }
+        }
+        kkt.update(&cones, &settings);
+        let v: KktView<f64> = kkt.verif_view();
+        let nzfactor: Vec<f64> = match (&v.ldl_nzval, &v.AtoPAPt) {
+            (Some(l), Some(a)) => (0..v.KKT.nnz()).map(|i| l[a[i]]).collect(),
+            _ => return Err("no-ldl-copy".into()),
+        };
+        recs.push(PassRec { nzval: v.KKT.nzval.clone(), nzfactor, eps: v.diagonal_regularizer });
+    }
+    Ok(PassesLive { kkt, recs })
+}
+
+fn run_passes(r: &Req) -> String {
+    match passes_live(r, 0) {
+        Err(e) => e,
+        Ok(live) => {
+            let mut l = Line::out().u("np", live.recs.len());
+            for (k, rec) in live.recs.iter().enumerate() {
+                l = l
+                    .fs(&format!("p{}nzval", k), &rec.nzval)
+                    .fs(&format!("p{}nzfactor", k), &rec.nzfactor)
+                    .f(&format!("p{}eps", k), rec.eps);
+            }
+            l.done()
+        }
+    }
+}
+
+fn same_bits(x: f64, y: f64) -> bool {
+    x.to_bits() == y.to_bits() || (x.is_nan() && y.is_nan())
+}
+
+/// The property at every pass of the loop, on the implementation's own response:
+///  * the outputs of the LAST pass are bit for bit those of a fresh solver given only the last
+///    scaling (C11.passes_last_is_fresh / pass_history_independent);
+///  * after every pass the P and A entries are where the maps say, untouched (C11.passes_keep_PA);
+///  * the LDL copy of every pass is the refinement copy with diag ± eps (C11.refinement_ldl_copy).
+fn oracle_passes(r: &Req, out: &str) -> Result<(), String> {
+    if !out.starts_with("np=") {
+        return Ok(());
+    }
+    let o = Req::parse(&format!("x {}", out)).unwrap();
+    let np = r.u("np");
+    if o.u("np") != np {
+        return Err(format!("{} passes reported, {} requested", o.u("np"), np));
+    }
+    let fresh = passes_live(r, np - 1).map_err(|e| format!("fresh solver with the last scaling only: {}", e))?;
+    let fr = &fresh.recs[0];
+    let last = np - 1;
+    let (lv, lf, le) = (o.fs(&format!("p{}nzval", last)), o.fs(&format!("p{}nzfactor", last)), o.f(&format!("p{}eps", last)));
+    if lv.len() != fr.nzval.len() || lf.len() != fr.nzfactor.len() {
+        return Err("value arrays of the last pass and of the fresh solver differ in length".into());
+    }
+    for k in 0..lv.len() {
+        if !same_bits(lv[k], fr.nzval[k]) {
+            return Err(format!(
+                "KKT.nzval[{}] = {:e} after {} passes but {:e} on a fresh solver given only the last scaling",
+                k, lv[k], np, fr.nzval[k]
+            ));
+        }
+        if !same_bits(lf[k], fr.nzfactor[k]) {
+            return Err(format!(
+                "LDL copy [{}] = {:e} after {} passes but {:e} on a fresh solver given only the last scaling",
+                k, lf[k], np, fr.nzfactor[k]
+            ));
+        }
+    }
+    if !same_bits(le, fr.eps) {
+        return Err(format!("regulariser {:e} after {} passes but {:e} on a fresh solver", le, np, fr.eps));
+    }
+    let view = fresh.kkt.verif_view();
+    let (P, A) = (r.csc("P"), r.csc("A"));
+    let mut is_diag = vec![false; view.KKT.nnz()];
+    for &i in view.map.diag_full.iter() {
+        is_diag[i] = true;
+    }
+    for p in 0..np {
+        let nz = o.fs(&format!("p{}nzval", p));
+        let nf = o.fs(&format!("p{}nzfactor", p));
+        let eps = o.f(&format!("p{}eps", p));
+        for (k, &i) in view.map.P.iter().enumerate() {
+            if !same_bits(nz[i], P.nzval[k]) {
+                return Err(format!("pass {}: entry {} of P is {:e} in the KKT matrix, {:e} in P", p, k, nz[i], P.nzval[k]));
+            }
+        }
+        for (k, &i) in view.map.A.iter().enumerate() {
+            if !same_bits(nz[i], A.nzval[k]) {
+                return Err(format!("pass {}: entry {} of A is {:e} in the KKT matrix, {:e} in A", p, k, nz[i], A.nzval[k]));
+            }
+        }
+        if r.b("reg") {
+            for (j, &i) in view.map.diag_full.iter().enumerate() {
+                let d = nz[i];
+                let w = if view.dsigns[j] == 1 { d + eps } else { d - eps };
+                if !same_bits(nf[i], w) {
+                    return Err(format!("pass {}: LDL copy of diagonal {} is {:e}, expected diag {:+} eps = {:e}", p, j, nf[i], view.dsigns[j], w));
+                }
+            }
+        }
+        for k in 0..nz.len() {
+            if (!is_diag[k] || !r.b("reg")) && !same_bits(nf[k], nz[k]) {
+                return Err(format!("pass {}: LDL copy of entry {} differs from the KKT matrix", p, k));
+            }
+        }
+    }
+    Ok(())
+}
+
 // ------------------------------------------------------------------ kkt.get_hs
 
 fn run_get_hs(r: &Req) -> String {
@@ -1295,6 +1458,9 @@ fn channels() -> Vec<Channel> {
             lean: "Kkt.updateValues, Kkt.regularizeAndRestore / C11.refinement_copy_clean, C11.soc_expansion, C11.genpow_expansion" },
         Channel { name: "kkt.get_hs", tol: Tol::Exact, run: run_get_hs, oracle: Some(oracle_get_hs), modelled: true,
             rust_fn: "Cone::get_Hs (zero, nonnegative, second-order dense/sparse, genpow)", lean: "Kkt.getHs" },
+        Channel { name: "kkt.passes", tol: Tol::Exact, run: run_passes, oracle: Some(oracle_passes), modelled: true,
+            rust_fn: "DirectLDLKKTSolver::update called once per pass of the loop on one solver object (2-4 passes)",
+            lean: "Kkt.runPasses, Kkt.updatePass / C11.pass_history_independent, C11.passes_last_is_fresh, C11.passes_keep_PA" },
         Channel { name: "kkt.live", tol: Tol::Exact, run: run_live, oracle: Some(oracle_live), modelled: false,
             rust_fn: "DefaultSolver::solve -> DirectLDLKKTSolver state", lean: "(oracle only)" },
     ];
@@ -1654,6 +1820,69 @@ fn update_case(s: &mut Session, spec: &[CS], chan: &str) {
     s.count(&format!("{}:hist={}", chan, hist));
 }
 
+/// several passes of the loop on one solver object: 2-4 interior points, one `update` each
+fn passes_case(s: &mut Session, spec: &[CS]) {
+    let m: usize = spec.iter().map(|c| c.numel()).sum();
+    let n = if m == 0 { 1 + s.rng.below(5) } else { s.rng.below(6) };
+    let wild = s.rng.bool(0.3);
+    let P = if s.rng.bool(0.6) {
+        psd_pattern_matrix(&mut s.rng, n, 0.4)
+    } else {
+        gen::csc_triu(&mut s.rng, n, 0.5, false, if wild { Vals::LogMag(-3.0, 3.0) } else { Vals::SmallInt(3) })
+    };
+    let adens = *s.rng.choose(&[0.2, 0.5, 1.0]);
+    let A = gen::csc(&mut s.rng, m, n, adens, if wild { Vals::LogMag(-3.0, 3.0) } else { Vals::SmallIntNZ(3) });
+    let mut cones = CompositeCone::<f64>::new(&parse_cones(&fmt_cs(spec)));
+    let np = 2 + s.rng.below(3);
+    let strat = if s.rng.bool(0.5) { "dual" } else { "pd" };
+    let reg = s.rng.bool(0.85);
+    let (rc, rp) = if s.rng.bool(0.6) {
+        (1e-8, f64::EPSILON * f64::EPSILON)
+    } else {
+        (10f64.powf(s.rng.uniform(-10.0, -2.0)), 10f64.powf(s.rng.uniform(-16.0, -6.0)))
+    };
+    let mut l = Line::new("kkt.passes")
+        .csc("P", &P)
+        .csc("A", &A)
+        .s("cones", &fmt_cs(spec))
+        .s("shape", "triu")
+        .s("strategy", strat)
+        .b("reg", reg)
+        .f("regconst", rc)
+        .f("regprop", rp)
+        .u("np", np)
+        .u("nc", cones.len());
+    for k in 0..np {
+        // later passes are closer to the boundary / of very different magnitude now and then
+        let w = wild && s.rng.bool(0.7);
+        let (sv, zv) = interior_point(&mut s.rng, spec, &cones, w);
+        let mu = if wild { 10f64.powf(s.rng.uniform(-8.0, 2.0)) } else { s.rng.uniform(0.1, 2.0) };
+        if !cones.update_scaling(&sv, &zv, mu, strategy(strat)) {
+            s.count("kkt.passes:scaling-failed-at-generation");
+            return;
+        }
+        l = l.fs(&format!("p{}s", k), &sv).fs(&format!("p{}z", k), &zv).f(&format!("p{}mu", k), mu);
+        l = scaling_tokens_pass(l, &cones, k);
+    }
+    s.submit(l.done());
+    s.count(&format!("kkt.passes:np={}", np));
+}
+
+fn gen_passes(s: &mut Session) {
+    let mut lists = cone_lists();
+    lists.extend(big_cone_lists());
+    for spec in lists.iter() {
+        for _ in 0..s.budget(4, 40) {
+            passes_case(s, spec);
+        }
+    }
+    for _ in 0..s.budget(300, 6000) {
+        let spec = random_cone_list(&mut s.rng.clone(), true);
+        s.rng.next_u64();
+        passes_case(s, &spec);
+    }
+}
+
 fn gen_update(s: &mut Session) {
     let mut lists = cone_lists();
     lists.extend(big_cone_lists());
@@ -1836,6 +2065,7 @@ fn generate(s: &mut Session) {
     gen_assemble(s);
     gen_blk(s);
     gen_update(s);
+    gen_passes(s);
 }
 
 fn main() {
